@@ -126,8 +126,8 @@ def _only_reaches_messages(lib, body, node, depth=0):
                 return False
             vars_ = list(_pat_binds(params[pos[0]]['pat']))
             return bool(vars_) and all(_var_only_reaches_messages(lib, target, v, depth + 1) for v in vars_)
-        if k in PLUMBING:
-            cur = pn
+        if k in PLUMBING or (k == 'If' and slot in ('then', 'else')) or (k == 'Block' and slot == 'expr'):
+            cur = pn          # the value is handed on unchanged (a branch / block yields it)
             continue
         if k == 'Call' and pn.get('args') and pn['args'][0] is cur and cname(pn) in OPTION_PLUMBING:
             cur = pn
@@ -173,6 +173,10 @@ def _reaches_via_plumbing(e, target):
             e = e.get('e')
         elif k == 'Tuple':
             return any(_reaches_via_plumbing(x, target) for x in e.get('elems', []))
+        elif k == 'If':
+            return any(_reaches_via_plumbing(e.get(s_), target) for s_ in ('then', 'else') if e.get(s_) is not None)
+        elif k == 'Block' and e.get('expr') is not None:
+            e = e['expr']
         elif k == 'Call' and e.get('args') and cname(e) in OPTION_PLUMBING:
             e = e['args'][0]
         else:
